@@ -297,6 +297,16 @@ class Sym:
         # String::push_str on a local whose value is known also updates that value (`strcat(old, piece)`), so the string a
         # function builds can be read off its result whichever way it was assembled. Opt-in.
         self.string_values = string_values
+        # crate-private single-field tuple structs (`struct SourceBytes<'s>(&'s [u8]);`) are transparent wrappers: building one,
+        # `.0` on one and matching `Name(x)` are the identity on the wrapped value
+        self.newtypes = set()
+        try:
+            for a_ in fx.all_adts():
+                if a_.get("kind") == "Struct" and a_["path"].split("::")[0] in krates and not a_.get("reachable_pub") and not a_.get("repr_c") \
+                        and len(a_.get("variants") or []) == 1 and [f_["name"] for f_ in a_["variants"][0]["fields"]] == ["0"]:
+                    self.newtypes.add(short_adt(a_["path"]))
+        except Exception:
+            self.newtypes = set()
         self.tsubst = []                  # stack of {generic parameter name: concrete type} of the helpers being inlined
         self.loops = {}       # id(loop node) -> dict(node, entry, paths)
         self._reserved = {}
@@ -560,7 +570,15 @@ class Sym:
         s.store[(key, tuple(path))] = v
         return s
 
+    def is_newtype_ty(self, ty):
+        ty = (ty or "").strip()
+        while ty.startswith("&"):
+            ty = re.sub(r"^&('\w+ )?(mut )?", "", ty)
+        return bool(self.newtypes) and short_adt(ty.split("<")[0]) in self.newtypes
+
     def ev_Field(self, n, st):
+        if n["name"] == "0" and self.is_newtype_ty(n.get("base_ty")):
+            return self._unary(n, st, lambda v: v)
         out = self._unary(n, st, lambda v: mk_field(v, n["name"]))
         if not self.thread_places:
             return out
@@ -608,6 +626,9 @@ class Sym:
             else:
                 fields = tuple((fn, given[fn]) for fn in n["all_fields"] if fn in given)
             adt = short_adt(n["adt"])
+            if adt in self.newtypes and len(fields) == 1 and fields[0][0] == "0":
+                out.append((s, (VAL, fields[0][1])))
+                continue
             if adt == "Option" and n["variant"] == "Some" and len(fields) == 1 and fields[0][1][0] == "payload" and fields[0][1][2] == "Some" \
                     and fields[0][1][3] == "0":
                 out.append((s, (VAL, fields[0][1][1])))
@@ -831,6 +852,8 @@ class Sym:
                 out += cur
             return out
         if k == "Leaf":
+            if len(pat["fields"]) == 1 and pat["fields"][0]["name"] == "0" and self.is_newtype_ty(pat.get("ty")):
+                return self.pmatch(pat["fields"][0]["pat"], t, st)
             cur = [(st, True)]
             for f in pat["fields"]:
                 nxt = []
@@ -1500,6 +1523,8 @@ class Sym:
             # a tuple-variant constructor used as a function value builds the same value as the constructor expression
             if fval[1] == "Option" and fval[2] == "Some":
                 return [(st, (VAL, some(args[0])))]
+            if fval[1] in self.newtypes and len(args) == 1:
+                return [(st, (VAL, args[0]))]
             return [(st, (VAL, ("adt", fval[1], fval[2], tuple((str(i), a) for i, a in enumerate(args)))))]
         if fval[0] == "fnref":
             tgt = self.fx.by_dp.get(fval[2])
